@@ -45,7 +45,7 @@ func runC15(c *Ctx) {
 	P, R := c.P, c.R
 	R.Require("C15.lock", 5)
 	R.Require("C15.atomic", 4)
-	R.Require("C15.latch", 4)
+	R.Require("C15.latch", 2)
 	R.Require("C15.own", 4)
 	conn := P.NamedType("websocket", "Conn")
 	if !R.Anchor(conn != nil, "C15.lock", "websocket.Conn") {
@@ -81,8 +81,8 @@ func runC15(c *Ctx) {
 				map[string]interface{}{"held": held.Sorted()})
 		}
 	}
-	if nw < 2 {
-		R.Fail("C15.lock", "websocket|conn.Write|sites", "?", fmt.Sprintf("only %d transport write sites found (2 confirmed on the pinned tree)", nw), nil)
+	if nw < 1 {
+		R.Fail("C15.lock", "websocket|conn.Write|sites", "?", "no transport write site found", nil)
 	}
 	// no other way to the transport: Conn.conn must not be handed to an io.Writer consumer
 	for _, fn := range fns {
@@ -111,9 +111,27 @@ func runC15(c *Ctx) {
 	// ---- C15.atomic
 	writeFn := P.Func("websocket", "(*Conn).write")
 	if R.Anchor(writeFn != nil, "C15.atomic", "websocket.(*Conn).write") {
+		// a forwarding wrapper: an unexported function that hands the buffers it received to Conn.write (exclusiveWrite);
+		// a call of it is a call of Conn.write for its callers
+		wrappers := map[*ssa.Function]bool{}
+		for _, fn := range fns {
+			if fn == writeFn || fn.Object() == nil || fn.Object().Exported() || fn.Parent() != nil {
+				continue
+			}
+			core.EachInstr(fn, func(in ssa.Instruction) {
+				call, ok := in.(*ssa.Call)
+				if !ok || call.Call.StaticCallee() != writeFn || len(call.Call.Args) == 0 {
+					return
+				}
+				last := core.StripConv(call.Call.Args[len(call.Call.Args)-1])
+				if _, isPar := last.(*ssa.Parameter); isPar {
+					wrappers[fn] = true
+				}
+			})
+		}
 		isWriteCall := func(in ssa.Instruction) bool {
 			call, ok := in.(*ssa.Call)
-			return ok && call.Call.StaticCallee() == writeFn
+			return ok && call.Call.StaticCallee() != nil && (call.Call.StaticCallee() == writeFn || wrappers[call.Call.StaticCallee()])
 		}
 		nCallers := 0
 		for _, fn := range fns {
